@@ -1,6 +1,7 @@
 import OdxVerif.Proofs.CompExtEndMarker
 import OdxVerif.Proofs.CompExtMatching
 import OdxVerif.Proofs.CompExtCursor
+import OdxVerif.Proofs.CompExtFieldsM
 /-! Compositional components, extension W11: the inductive predicate **`Described2`** — `Described` of
     `Proofs/CompDescribed.lean` with every constructor restated over parameters that carry the flag `mid` ("can only be
     encoded while `is_end_of_pdu` is cleared", `MComp`), STRUCTUREs and field items with optional BYTE-SIZE, and the new
@@ -79,6 +80,30 @@ theorem structItems2_ok (bso : Option Nat) (shape : List Param) (items : List (L
   · rw [DComp.structO_dop, hshape]
   · rw [DComp.structO_eopOnly]; exact hno
 
+/-- what a STATIC-FIELD demands of an item's value assignment: as `itemSide2`, but the item may END with a parameter that needs
+    `is_end_of_pdu` cleared (every item of a static field is encoded with the flag cleared) -/
+def itemSideS (bso : Option Nat) (shape : List Param) (k : List MComp) : Prop :=
+  Comps.toParams (MComps.cs k) = shape ∧ Comps.namesOk (MComps.cs k) ∧ Comps.anyEop (MComps.cs k) = false ∧
+  sizeSide bso (MComps.cs k)
+
+theorem itemSide2.toS {bso : Option Nat} {shape : List Param} {k : List MComp} (h : itemSide2 bso shape k) : itemSideS bso shape k :=
+  ⟨h.1, h.2.1, h.2.2.1, h.2.2.2.2⟩
+
+theorem structItemsS_ok (bso : Option Nat) (shape : List Param) (items : List (List MComp))
+    (ih : ∀ k ∈ items, ∀ m ∈ k, (∀ P, m.c.OkM m.mid P) ∧ m.c.EndOk) (hside : ∀ k ∈ items, itemSideS bso shape k) :
+    ∀ c ∈ itemsO bso items, c.itemOkM (.struct bso shape) ∧ c.EndOk := by
+  intro c hc
+  obtain ⟨k, hk, rfl⟩ := List.mem_map.mp hc
+  obtain ⟨hshape, hn, hno, hsz⟩ := hside k hk
+  have hok := MComps.okAll_of_forall (fun _ => True) k (fun m hm => (ih k hk m hm).1 _)
+  have hend : Comps.endOkAll (MComps.cs k) := Comps.endOkAll_of_forall _ (fun g hg => by
+    obtain ⟨m, hm, rfl⟩ := MComps.mem_cs hg
+    exact (ih k hk m hm).2)
+  have hlast := Comps.eopLast_of_noEop _ hno
+  refine ⟨⟨(DComp.structOM_okM bso k hok hn hlast hsz).weaken, ?_, ?_⟩, DComp.structOM_endOk bso k hok hend hlast hsz⟩
+  · rw [DComp.structO_dop, hshape]
+  · rw [DComp.structO_eopOnly]; exact hno
+
 /-- **the described parameters, second edition**: `Described2 g mid` — `mid`: the parameter can only be encoded while
     `is_end_of_pdu` is cleared, i.e. not as the last parameter of its structure -/
 inductive Described2 : Comp → Bool → Prop
@@ -98,7 +123,7 @@ inductive Described2 : Comp → Bool → Prop
   | staticField (name : String) (bp : Option Nat) (itemSize : Nat) (bso : Option Nat) (shape : List Param)
       (items : List (List MComp)) :
       (∀ k ∈ items, ∀ m ∈ k, Described2 m.c m.mid) →
-      (∀ k ∈ items, itemSide2 bso shape k ∧ (DComp.structO bso (MComps.cs k)).size ≤ itemSize) →
+      (∀ k ∈ items, itemSideS bso shape k ∧ (DComp.structO bso (MComps.cs k)).size ≤ itemSize) →
       Described2 (Comp.ofValue name bp (DComp.staticField itemSize (.struct bso shape) (itemsO bso items))) false
   | dynLenField (name : String) (bp : Option Nat) (l : DynLayout) (bso : Option Nat) (shape : List Param)
       (items : List (List MComp)) :
@@ -152,8 +177,8 @@ theorem Described2.ok {g : Comp} {mid : Bool} (h : Described2 g mid) : (∀ P, g
     exact ⟨fun P => Comp.ofValueM_ok name bp _ _ (DComp.structOM_okM bso ms hok hn hlast hsz) P,
       Comp.ofValue_endOk name bp _ (DComp.structOM_endOk bso ms hok hend hlast hsz)⟩
   | staticField name bp n bso shape items _ hside ih =>
-    have hitems := structItems2_ok bso shape items ih (fun k hk => (hside k hk).1)
-    refine ⟨fun P => (Comp.ofValue_ok name bp _ (DComp.staticField_ok n _ _ ?_)).toM _ P,
+    have hitems := structItemsS_ok bso shape items ih (fun k hk => (hside k hk).1)
+    refine ⟨fun P => (Comp.ofValue_ok name bp _ (DComp.staticFieldM_ok n _ _ ?_)).toM _ P,
       Comp.ofValue_endOk name bp _ (DComp.staticField_endOk n _ _)⟩
     intro c hc
     refine ⟨(hitems c hc).1, (hitems c hc).2, ?_⟩
@@ -242,7 +267,7 @@ theorem Described.to2 {g : Comp} (h : Described g) : Described2 g false := by
         exact ih k0 hk0 g hg)
       (fun k hk => by
         obtain ⟨k0, hk0, rfl⟩ := List.mem_map.mp hk
-        exact ⟨itemSide2_ofComps shape k0 (hside k0 hk0).1, by rw [structO_size_ofComps]; exact (hside k0 hk0).2⟩)
+        exact ⟨(itemSide2_ofComps shape k0 (hside k0 hk0).1).toS, by rw [structO_size_ofComps]; exact (hside k0 hk0).2⟩)
     rw [itemsO_ofComps] at h
     exact h
   | dynLenField name bp l shape items _ hside hl ih =>
